@@ -431,8 +431,7 @@ def grid_task(fname, datatype, extra=None):
             I.assume(V.s_cmp(">=", N, 2))
             I.assume(V.s_cmp(">=", n1, 1))
             n2 = dom.input_int("NFFT2")
-            I.assume(V.s_eq(n2, c * n1))
-            # linear consequence of n2 = c*n1, c >= 2, n1 >= 1, handed to the (linear) queries; it is
+            # n2 = c*n1 is handed only to the obligations that need it (non-linear); its linear consequence of n2 = c*n1, c >= 2, n1 >= 1, handed to the (linear) queries; it is
             # itself discharged as the obligation `finer-grid-lemma`
             I.assume(V.s_cmp(">=", n2, 2 * n1))
             dt = "complex" if datatype == "complex" else "float"
@@ -498,21 +497,30 @@ def grid_task(fname, datatype, extra=None):
             res.replay = None
             tc.results.append(res)
             i = P.skolem("gi", 0, r1.n)
+            j = dom.fresh_int("gj")
+            nonlin = V.b_and(V.s_eq(n2, c * n1), V.s_eq(j, (specs.half(n2) + c * (i - specs.half(n1))) if fname == "eigen" else c * i))
             if fname == "eigen":
-                h1, h2 = specs.half(n1), specs.half(n2)
-                j = h2 + c * (i - h1)              # same frequency (a-h)/NFFT on the finer centred grid
                 P.prove_arr_eq("singular-values-independent-of-NFFT", st["S2"], st["S1"], replay=("grid", hints))
-            else:
-                j = c * i
+            # the index of the same frequency on the finer grid lies inside the finer result
+            with P.case(nonlin):
+                P.prove("index-in-range", V.b_and(V.s_cmp(">=", j, 0), V.s_cmp("<", j, r2.n)), replay=("grid", hints))
+            P.assume(V.b_and(V.s_cmp(">=", j, 0), V.s_cmp("<", j, r2.n)))
             if "spec" in st:
                 # wrapped (Hermitian) sequences: go through the grid-independent two-sided spectrum
                 w1, w2 = st["spec"](n1), st["spec"](n2)
                 P.prove("coarse-grid=two-sided-spectrum", V.s_eq(r1.at(i), w1.at(i)), replay=("grid", hints))
                 P.prove("fine-grid=two-sided-spectrum", V.s_eq(r2.at(j), w2.at(j)), replay=("grid", hints))
-                P.prove("two-sided-spectrum-at-equal-frequencies", V.s_eq(w2.at(j), w1.at(i)), replay=("grid", hints))
+                with P.case(nonlin):
+                    P.prove("two-sided-spectrum-at-equal-frequencies", V.s_eq(w2.at(j), w1.at(i)), replay=("grid", hints))
+            elif fname == "eigen":
+                h1 = specs.half(n1)
+                for nm, cond in (("positive-frequencies", V.s_cmp(">", i, h1)), ("zero-frequency", V.s_eq(i, h1)),
+                                 ("negative-frequencies", V.s_cmp("<", i, h1))):
+                    with P.case(V.b_and(nonlin, cond)):
+                        P.prove("common-frequencies-agree." + nm, V.s_eq(r2.at(j), r1.at(i)), replay=("grid", hints))
             else:
-                P.prove("common-frequencies-agree", V.s_eq(r2.at(j), r1.at(i)), replay=("grid", hints))
-            P.prove("index-in-range", V.b_and(V.s_cmp(">=", j, 0), V.s_cmp("<", j, r2.n)), replay=("grid", hints))
+                with P.case(nonlin):
+                    P.prove("common-frequencies-agree", V.s_eq(r2.at(j), r1.at(i)), replay=("grid", hints))
         tc.run_paths(I, thunk, post)
     tag = ("." + ".".join("%s%s" % (k, v) for k, v in sorted((extra or {}).items()))) if extra else ""
     return Task("grid.%s.%s%s" % (fname, datatype, tag), run, functions=["spectrum." + {
